@@ -80,6 +80,25 @@ def probe_parent(parent_factory, rows, attrs, foreign, rnd, positional=None):
                            "same": (el is canon) if (wrote and g not in "-!") else True,
                            "val": val if wrote else "", "want": VAL if wrote else "",
                            "positional": how.startswith("positional"), "expect": name})
+        # creation through the add_<child> helper, by every spelling, on a fresh parent each time
+        for (how, text) in sp:
+            if how.startswith("positional"):
+                continue
+            fresh = parent_factory()
+            adder = {"Segment": "add_field", "Field": "add_component", "Component": "add_subcomponent"}.get(fresh.classname)
+            if adder is None:
+                break
+            try:
+                ch = getattr(fresh, adder)(text)
+                g, el, _ = reach(fresh, name.lower())
+                probes.append({"t": text.upper(), "how": "add:" + how, "got": ch.name or "?", "same": el is ch, "val": "", "want": "",
+                               "positional": False, "expect": name})
+            except (ChildNotFound, ChildNotValid):
+                probes.append({"t": text.upper(), "how": "add:" + how, "got": "-", "same": True, "val": "", "want": "",
+                               "positional": False, "expect": name})
+            except Exception as ex:
+                probes.append({"t": text.upper(), "how": "add:" + how, "got": "!", "same": True, "val": exc_name(ex), "want": "",
+                               "positional": False, "expect": name})
         if wrote and canon is not None:     # deleting is probed when the child exists under its own name
             d = sp[(idx + 2) % len(sp)]
             try:
